@@ -1,8 +1,9 @@
 SPECIFICATION TraceSpec
-CONSTANTS N = 100
+CONSTANTS N = 1000000
  MaxRetry = 2
  MaxFaults = 100
  FormatBug = FALSE
+ Stalls = TRUE
 CONSTRAINT Mark
 POSTCONDITION Accepted
 CHECK_DEADLOCK FALSE
